@@ -606,6 +606,193 @@ theorem UnmarkDeep_tie {ord : Ord} (ho : OrdOk ord) (X : SetOracle) (σ : Walk.S
   | panic w => rfl
   | unmodelled => rfl
 
+/-! ### the hand-written `transform` never returns an error of its own: only a callback can -/
+
+open Walk
+
+def NoErr {α} (r : Res α) : Prop := ∀ c, r ≠ .err c
+
+theorem NoErr.map {α β} {f : α → β} {r : Res α} (h : NoErr r) : NoErr (r.map f) := by
+  intro c
+  cases r with
+  | err c' => exact absurd rfl (h c')
+  | ok a => simp [Res.map]
+  | panic w => simp [Res.map]
+  | unmodelled => simp [Res.map]
+
+theorem unifyElemTy_noErr : ∀ (vs : List Value) (acc : Ty), NoErr (unifyElemTy acc vs)
+  | [], _ => by intro c; simp [unifyElemTy]
+  | v :: vs, acc => by
+    unfold unifyElemTy
+    split
+    · exact unifyElemTy_noErr vs _
+    · split
+      · intro c; simp
+      · exact unifyElemTy_noErr vs _
+
+theorem listVal_noErr (vs : List Value) : NoErr (Walk.listVal vs) := by
+  unfold Walk.listVal
+  split
+  · intro c; simp
+  · exact (unifyElemTy_noErr vs _).map
+
+theorem mapVal_noErr (ks : List String) (vs : List Value) : NoErr (Walk.mapVal ks vs) := by
+  unfold Walk.mapVal
+  split
+  · intro c; simp
+  · exact (unifyElemTy_noErr vs _).map
+
+theorem setVal_noErr (X : SetOracle) (vs : List Value) : NoErr (Walk.setVal X vs) := by
+  unfold Walk.setVal
+  split
+  · intro c; simp
+  · have h := unifyElemTy_noErr (vs.map Value.unmarkDeep) .dyn
+    simp only
+    cases hu : unifyElemTy .dyn (vs.map Value.unmarkDeep) with
+    | err c' => exact absurd hu (h c')
+    | ok e => simp only; split <;> (intro c; simp)
+    | panic w => intro c; simp
+    | unmodelled => intro c; simp
+
+theorem transformKids_noErr (rec : TRec) (h : ∀ log path v, NoErr (rec log path v).2) :
+    ∀ (cs : List (PathStep × Value)) (log : List Ev) (path : Path), NoErr (transformKids rec log path cs).2
+  | [], log, path => by intro c; simp [transformKids]
+  | (s, c) :: rest, log, path => by
+    have h1 := h log (path ++ [s]) c
+    unfold transformKids
+    rcases hr : rec log (path ++ [s]) c with ⟨log', r⟩
+    rw [hr] at h1
+    cases r with
+    | err c' => exact absurd rfl (h1 c')
+    | panic w => intro c; simp
+    | unmodelled => intro c; simp
+    | ok nv =>
+      simp only
+      have h2 := transformKids_noErr rec h rest log' path
+      rcases hk : transformKids rec log' path rest with ⟨log'', r'⟩
+      rw [hk] at h2
+      cases r' with
+      | err c' => exact absurd rfl (h2 c')
+      | ok nvs => intro c; simp
+      | panic w => intro c; simp
+      | unmodelled => intro c; simp
+
+theorem liftRes_noErr {α β} (log : List Ev) (r : Res α) (h : NoErr r) : NoErr (liftRes (β := β) log r).2 := by
+  intro c
+  cases r with
+  | err c' => exact absurd rfl (h c')
+  | ok a => simp [liftRes]
+  | panic w => simp [liftRes]
+  | unmodelled => simp [liftRes]
+
+/-- what `rebuild` does with the transformed members -/
+theorem kidsThen_noErr (rec : TRec) (h : ∀ log path v, NoErr (rec log path v).2) (log : List Ev) (path : Path)
+    (cs : List (PathStep × Value)) (k : List Value → Res Value) (hk : ∀ es, NoErr (k es)) :
+    NoErr (match transformKids rec log path cs with
+      | (log, .ok elems) => (log, k elems)
+      | (log, r) => liftRes log r).2 := by
+  have h2 := transformKids_noErr rec h cs log path
+  rcases hkids : transformKids rec log path cs with ⟨log', r⟩
+  rw [hkids] at h2
+  cases r with
+  | ok es => exact hk es
+  | err c' => exact absurd rfl (h2 c')
+  | panic w => intro c; simp [liftRes]
+  | unmodelled => intro c; simp [liftRes]
+
+theorem rebuild_noErr (X : SetOracle) (σ : Sched) (rec : TRec) (h : ∀ log path v, NoErr (rec log path v).2)
+    (log : List Ev) (path : Path) (val : Value) : NoErr (rebuild X σ rec log path val).2 := by
+  unfold rebuild
+  simp only
+  split
+  · intro c; simp
+  · split
+    · split
+      · intro c; simp
+      · exact kidsThen_noErr rec h _ _ _ _ fun es => (listVal_noErr es).map
+    · split
+      · intro c; simp
+      · exact kidsThen_noErr rec h _ _ _ _ fun es => (setVal_noErr X es).map
+    · split
+      · intro c; simp
+      · exact kidsThen_noErr rec h _ _ _ _ fun es => by intro c; simp
+    · split
+      · intro c; simp
+      · exact kidsThen_noErr rec h _ _ _ _ fun es => (mapVal_noErr _ es).map
+    · split
+      · intro c; simp
+      · exact kidsThen_noErr rec h _ _ _ _ fun es => by intro c; simp
+    · intro c; simp
+
+theorem transformFuel_noErr (X : SetOracle) (σ : Sched) (t : Transformer)
+    (he : ∀ log p v, NoErr (t.enter log p v)) (hx : ∀ log p v, NoErr (t.exit log p v)) :
+    ∀ (f : Nat) (log : List Ev) (path : Path) (v : Value), NoErr (transformFuel X σ t f log path v).2
+  | 0, _, _, _ => by intro c; simp [transformFuel]
+  | f + 1, log, path, v => by
+    unfold transformFuel
+    have h1 := he log path v
+    cases hen : t.enter log path v with
+    | err c' => exact absurd hen (h1 c')
+    | panic w => intro c; simp
+    | unmodelled => intro c; simp
+    | ok val =>
+      simp only
+      have h2 := rebuild_noErr X σ (transformFuel X σ t f) (transformFuel_noErr X σ t he hx f)
+        (log ++ [.enter path v]) path val
+      generalize rebuild X σ (transformFuel X σ t f) (log ++ [.enter path v]) path val = rb at h2 ⊢
+      obtain ⟨log', r⟩ := rb
+      cases r with
+      | err c' => exact absurd rfl (h2 c')
+      | panic w => intro c; simp
+      | unmodelled => intro c; simp
+      | ok nv =>
+        simp only
+        have h3 := hx log' path nv
+        generalize t.exit log' path nv = ex at h3 ⊢
+        cases ex with
+        | err c' => exact absurd rfl (h3 c')
+        | ok r => intro c; simp
+        | panic w => intro c; simp
+        | unmodelled => intro c; simp
+
+/-- the run of `unmarkT` never ends in an error -/
+theorem unmarkRun_noErr (X : SetOracle) (σ : Sched) (v : Value) : ∀ c, (unmarkRun X σ v).2 ≠ .err c :=
+  transformFuel_noErr X σ unmarkT (fun _ _ _ c => by simp [unmarkT]) (fun _ _ _ c => by simp [unmarkT]) _ _ _ _
+
+/-- **`UnmarkDeepWithPaths` = the hand-written `Walk.unmarkDeepWithPaths`** with every recorded mark set copied:
+every value, every oracle, every attribute order, every map order -/
+theorem UnmarkDeepWithPaths_eq {ord : Ord} (ho : OrdOk ord) (X : SetOracle) (σ : Sched) (v : Value) :
+    Value_UnmarkDeepWithPaths ord X σ v =
+      (Walk.unmarkDeepWithPaths X σ v).map fun q => (q.1, q.2.map (canonPVM ord)) :=
+  UnmarkDeepWithPaths_tie ho X σ v (unmarkRun_noErr X σ v)
+
+theorem unionAll_copies {ord : Ord} (ho : OrdOk ord) (sets : List (List String)) :
+    unionAllMarks (sets.map (copyM ord)) = unionAllMarks sets :=
+  MSorted.ext (unionAllMarks_sorted _) (unionAllMarks_sorted _) fun m => by
+    rw [mem_unionAllMarks, mem_unionAllMarks]
+    constructor
+    · rintro ⟨_, hs, hm⟩
+      obtain ⟨s, hs', rfl⟩ := List.mem_map.mp hs
+      exact ⟨s, hs', (mem_copyM ho).mp hm⟩
+    · rintro ⟨s, hs, hm⟩
+      exact ⟨_, List.mem_map.mpr ⟨s, hs, rfl⟩, (mem_copyM ho).mpr hm⟩
+
+/-- **`UnmarkDeep` = the value of the hand-written `Walk.unmarkDeepWithPaths` and the union of the mark sets it
+records**: every value, every oracle, every attribute order, every map order -/
+theorem UnmarkDeep_eq {ord : Ord} (ho : OrdOk ord) (X : SetOracle) (σ : Sched) (v : Value) :
+    Value_UnmarkDeep ord X σ v =
+      (Walk.unmarkDeepWithPaths X σ v).map fun q => (q.1, unionAllMarks (q.2.map (·.2))) := by
+  rw [UnmarkDeep_tie ho, UnmarkDeepWithPaths_eq ho]
+  cases Walk.unmarkDeepWithPaths X σ v with
+  | ok q =>
+    simp only [Res.map, List.map_map]
+    have : ((fun e : Walk.PVM => e.2) ∘ canonPVM ord) = (copyM ord ∘ fun e : Walk.PVM => e.2) := by
+      funext e; rfl
+    rw [this, ← List.map_map, unionAll_copies ho]
+  | err c => rfl
+  | panic w => rfl
+  | unmodelled => rfl
+
 /-! ### `MarkWithPaths` -/
 
 /-- the loop of `applyPathValueMarksTransformer.Exit` is the hand-written `findPVM` -/
